@@ -132,9 +132,69 @@ class ResultsConsumed(Task):
             ctx.oblige("complete.no-message-leaves-isgood", self_.attrs.get("isgood") is True, "P")
 
 
+class Structure(Task):
+    """The whole method taste_plotfile_structure on a skeleton (level 0: 3 boxes over 2 files; level 1: one file), the directory
+    listing of every level a free choice (each named file present or absent, plus a stray file): a binary file named by the
+    level header of a VALIDATED level that the level directory does not list clears isgood (raises exactly in failing mode);
+    with every named file of the validated levels present the method returns with isgood untouched - whatever is or is not in
+    the levels above the limit."""
+    reach = "S"
+    inline = (TA + "raise_error",)
+
+    def __init__(self, prop, limit):
+        self.prop, self.limit = prop, limit
+        self.qual = TA + "taste_plotfile_structure"
+        self.name = f"taste_plotfile_structure[limit={limit}]"
+
+    def functions(self):
+        return [self.qual, TA + "raise_error"]
+
+    def setup(self, ex):
+        from pyvc.exec import LIBS
+        named = {0: ["Cell_D_00000", "Cell_D_00001"], 1: ["Cell_D_00000"]}
+        present = {}
+
+        def listdir(ex_, args, kw):
+            d = str(args[0])
+            lv = 0 if "Level_0" in d else 1
+            out = ["Cell_H", "stray_file"]
+            for f in named[lv]:
+                if (lv, f) not in present:
+                    present[(lv, f)] = ex_.ctx.choose(2) == 0
+                if present[(lv, f)]:
+                    out.append(f)
+            return out
+        LIBS[("os", "listdir")] = listdir
+        fob = z3.Bool("fail_on_bad")
+        cells = [{"files": list(FILES)}, {"files": ["p/Level_1/Cell_D_00000"]}]
+        self_ = Record("amr_kitchen.taste.taste.Taster", cells=cells, pfile="p", cell_paths=["Level_0", "Level_1"], limit_level=self.limit,
+                       isgood=True, fail_on_bad=fob, v=0)
+        return {"self": self_, "args": [], "present": present, "named": named, "fob": fob}
+
+    def post(self, ex, inp, out):
+        ctx = ex.ctx
+        self_, present = inp["self"], inp["present"]
+        missing = [k for k, v in present.items() if not v and k[0] <= self.limit]
+        asked_above = [k for k in present if k[0] > self.limit]
+        ctx.oblige("frame.no-level-above-the-limit-is-listed", not asked_above, "P", note=str(asked_above))
+        if out.kind == "ret":
+            ctx.oblige("post.every-named-file-of-a-validated-level-was-looked-for",
+                       all((lv, f) in present for lv in range(self.limit + 1) for f in inp["named"][lv]), "P")
+        if missing:
+            ctx.oblige("sound.a-missing-binary-file-clears-isgood", self_.attrs.get("isgood") is False, "P", note=str(missing))
+            if out.kind == "exc":
+                ctx.oblige("sound.raises-only-in-failing-mode", zand(inp["fob"], out.exc.etype == "TastesBadError"), "P", note=str(out.exc))
+            else:
+                ctx.oblige("sound.returns-only-in-non-failing-mode", z3.Not(inp["fob"]), "P")
+        else:
+            ctx.oblige("complete.all-present-returns-normally", out.kind == "ret", "P", note=str(out.exc) if out.kind != "ret" else "")
+            ctx.oblige("complete.all-present-leaves-isgood", self_.attrs.get("isgood") is True, "P")
+
+
 def parent_tasks(prop):
     return [WorkerInput(prop, meth, f) for meth in ("taste_binary_headers", "taste_binary_shape") for f in (FILES[0], FILES[1])] + \
-        [ResultsConsumed(prop, meth, lim) for meth in ("taste_binary_headers", "taste_binary_shape") for lim in (0, 1)]
+        [ResultsConsumed(prop, meth, lim) for meth in ("taste_binary_headers", "taste_binary_shape") for lim in (0, 1)] + \
+        [Structure(prop, 0), Structure(prop, 1)]
 
 
 def parent_canaries():
@@ -149,7 +209,10 @@ def parent_canaries():
             ("taste_binary_shape: a worker's message is only passed on in verbose mode",
              [(f, "            for mp_out in self.pool.imap(mp_fun_shape, mp_inputs):\n                if mp_out is not None:",
                "            for mp_out in self.pool.imap(mp_fun_shape, mp_inputs):\n                if mp_out is not None and self.v > 0:")],
-             ["taste_binary_shape.every-worker-verdict-consumed[limit=0]"])]
+             ["taste_binary_shape.every-worker-verdict-consumed[limit=0]"]),
+            ("taste_plotfile_structure: the finest validated level is not looked at",
+             [(f, "        for lv in range(self.limit_level + 1):\n            lv_files = os.listdir(", "        for lv in range(self.limit_level):\n            lv_files = os.listdir(")],
+             ["taste_plotfile_structure[limit=1]"])]
 
 
 def tasks(tier):
